@@ -1,5 +1,6 @@
 import Tengo.Sexp
 import Tengo.Model.Compiler
+import Tengo.Proofs.C02CompileSize
 /-!
 Line protocol of the whole-compiler model:
 `(compile (<#input-name>…) <file-ast>)` →
@@ -53,6 +54,21 @@ def handleCompile : List Sexp → String
     | _, _ => "unsupported unreadable-ast"
   | _ => "bad-op"
 
-def handlers : List (String × (List Sexp → String)) := [("compile", handleCompile)]
+/-- `(compilebounds (<input names>) <ast>)` → `bounds 1` when the program satisfies the three size hypotheses of
+`Tengo.Props.C02Compile.compile_verifies` / `compiled_never_faults` (raw code bound ≤ 2^30, at most 65536
+constants and globals), `bounds 0` when not, `n/a` when the model does not compile it. -/
+def handleCompileBounds : List Sexp → String
+  | [.list ins, ast] =>
+    match readNames ins, readFileDeep ast with
+    | some inputs, some ss =>
+      match compileFile ss inputs with
+      | .ok bc =>
+        if codeBound ss ≤ 2 ^ 30 && bc.consts.length ≤ 65536 && bc.maxGlobals ≤ 65536 then "bounds 1" else "bounds 0"
+      | _ => "n/a"
+    | _, _ => "n/a"
+  | _ => "bad-op"
+
+def handlers : List (String × (List Sexp → String)) :=
+  [("compile", handleCompile), ("compilebounds", handleCompileBounds)]
 
 end Tengo.Drivers.Comp
